@@ -56,13 +56,19 @@ class Scn:
         return "%d %d %d|%s" % (self.ns, self.slot, self.blk, ";".join(self.ops))
 
 
+class Tok(tuple):
+    """(head, flash-op log) with the number of device operations (reads included) as attribute .nops"""
+    def __new__(cls, head, lg, nops):
+        t = super().__new__(cls, (head, lg)); t.nops = nops; return t
+
+
 def parse_out(line):
     """-> list of (head, [flash ops])"""
     out = []
     for tok in line.split(" ; "):
-        m = re.match(r"^(.*?)(?:\[(.*)\])?$", tok, re.S)
+        m = re.match(r"^(.*?)(?:\[(.*)\])?(?:#(\d+))?$", tok, re.S)
         head, lg = m.group(1), m.group(2)
-        out.append((head, lg.split(",") if lg else []))
+        out.append(Tok(head, lg.split(",") if lg else [], int(m.group(3) or 0)))
     return out
 
 
@@ -247,7 +253,60 @@ def run(chk, scns, variant="matrix", stream="session", with_model=True):
 
 
 def c18_part(chk):
-    pass
+    """flash level of C18: one transient failure at every device operation (reads and writes) of every handle_segment call,
+       the failed fragment re-delivered; compared with the fault-free run"""
+    from . import crash as crashmod
+    rnd = random.Random(chk.seed + 18)
+    nbase, per_call = (14, 10) if chk.quick() else (400, 60)
+    bases = []
+    while len(bases) < nbase:
+        b = build_delivery(rnd, small=True, with_history=False)
+        if b.meta["cap"] >= 1 and len(b.meta["seq"]) <= 40:
+            bases.append(b)
+    lines, impl, refouts = run(chk, bases, stream="session-fault-ref")
+    cases = []
+    for b, ro in zip(bases, refouts):
+        if len(ro) != len(b.ops):
+            continue
+        me = b.meta
+        for j, opi in enumerate(me["seg_ops"]):
+            nops = ro[opi].nops
+            ks = list(range(nops)) if nops <= per_call else sorted(rnd.sample(range(nops), per_call))
+            for k in ks:
+                s = Scn(b.ns, b.slot, b.blk)
+                m = dict(me); m["ref"] = (b, ro); m["fail_call"] = j; m["fail_off"] = k
+                m["fb_before"] = s.add("fb"); m["fbvalid_before"] = s.add("validfb")
+                m["start_op"] = s.add(b.ops[me["start_op"]])
+                m["seg_ops"] = []
+                for jj, oi in enumerate(me["seg_ops"]):
+                    if jj == j:
+                        s.add("fail %d" % k)
+                        m["failed_op"] = s.add(b.ops[oi])          # fails
+                    m["seg_ops"].append(s.add(b.ops[oi]))         # (re-)delivery
+                m["done_op"] = s.add("done"); m["bl_op"] = s.add("bl"); m["valid_op"] = s.add("validbl")
+                m["dump_op"] = s.add("dumpbl %x %d" % (DRO, me["n"] * me["sz"])); m["fb_op"] = s.add("fb"); m["fbvalid_after"] = s.add("validfb"); m["hdrs_op"] = s.add("hdrs")
+                s.meta = m
+                cases.append(s)
+    clines, cimpl, couts = run(chk, cases, stream="session-fault")
+    nt, dist = [], {"fault_cases": 0, "in_back_substitution": 0, "failed_reads_or_writes": 0}
+    for s, l, raw, out in zip(cases, clines, cimpl, couts):
+        if len(out) != len(s.ops):
+            chk.failures.append(core.Failure("harness produced no / truncated result", "session", "matrix", l, raw, key="crash")); break
+        me = s.meta; b, ro = me["ref"]
+        dist["fault_cases"] += 1
+        failed = out[me["failed_op"]]
+        pair = [a // s.slot for kk, a, ln, d, z in expand_log(out[me["start_op"]][1], s.blk) if kk == "W" and a % s.slot == 4][:2]
+        types = crashmod.classify_ops(s, expand_log(failed[1], s.blk), pair, me["cap"], me["sz"]) if len(pair) == 2 else []
+        in_finish = "R" in types and ro[b.meta["seg_ops"][me["fail_call"]]][0].startswith("F")
+        if in_finish: dist["in_back_substitution"] += 1
+        msgs = []
+        if not failed[0].startswith("err:Spi(HardwareFailure)"):
+            msgs.append("the call with the failing flash operation returned %s instead of the error" % failed[0].split(":r=")[0])
+        msgs += oracle_delivery(s, out)
+        for msg in msgs[:1]:
+            chk.failures.append(core.Failure(msg, "session", "matrix", l, raw[:2500], key="c18-finish" if in_finish else "c18"))
+        nt.append(l)
+    chk.note_cases("session-fault", clines, nt, sample_n=1, dist=dist)
 
 
 # ------------------------------------------------------------------ oracles for crash-free deliveries
